@@ -318,7 +318,10 @@ def check_dot_case(case, ev=None, scratch=None):
             # any refusal is acceptable (the property only forbids aliasing and escaping)
             outcome = "rejected" if isinstance(e, DDSException) else "error"
         for q in neigh:
-            got = dict(env.store.fetch_paths([mkpath(q)])).get(q)
+            try:
+                got = dict(env.store.fetch_paths([mkpath(q)])).get(q)
+            except Exception as e:  # noqa
+                raise Violation(f"[{case['kind']}] the committed path {q} does not resolve after committing {neigh} and then {p!r}: {type(e).__name__}: {str(e)[:200]}", case)
             if got != k1:
                 raise Violation(f"[{case['kind']}] committing {p!r} changed what {q} resolves to (aliasing)", case)
         if case["kind"] in ("local", "lru-local"):
@@ -326,7 +329,10 @@ def check_dot_case(case, ev=None, scratch=None):
             if esc:
                 raise Violation(f"[{case['kind']}] committing {p!r} created entries outside the data directory: {esc}", case)
         if outcome == "committed" and segs_of(p):
-            got = dict(env.store.fetch_paths([mkpath(p)])).get(p)
+            try:
+                got = dict(env.store.fetch_paths([mkpath(p)])).get(p)
+            except Exception as e:  # noqa
+                raise Violation(f"[{case['kind']}] {p!r} was accepted for commit but does not resolve: {type(e).__name__}: {str(e)[:200]}", case)
             if got != k2:
                 raise Violation(f"[{case['kind']}] committed {p!r} resolves to {str(got)[:6]}", case)
         if ev is not None:
